@@ -27,6 +27,32 @@ def register_roles(ctor):
     return roles
 
 
+def output_action_class(idx):
+    """The field action class of the Output register, by role: the class handed to csr.Field(...) in Peripheral.Output.__init__
+    (a nested class reached as self._X, or a module-level class)."""
+    try:
+        out = idx.find_class("gpio:Peripheral.Output")
+    except Exception:
+        return None
+    init = out.method("__init__")
+    if init is None:
+        return None
+    for n in ast.walk(init.node):
+        if isinstance(n, ast.Call) and ast.unparse(n.func).endswith("Field") and n.args:
+            a = n.args[0]
+            fir = ir.from_ast(a, {})
+            if isinstance(a, ast.Attribute) and isinstance(a.value, ast.Name) and a.value.id == "self":
+                fir = ('attr', ('name', out.name), a.attr)
+            cls = idx.resolve_class(fir, out.module, out)
+            if cls is None and isinstance(a, ast.Attribute):
+                for k in idx.all_classes():
+                    if k.name == a.attr and k.qual.startswith(out.qual + "."):
+                        cls = k
+            if cls is not None:
+                return cls
+    return None
+
+
 def shift_register_form(rep, c, env, inp):
     """Alternative verified shape of the synchroniser: one input_stages-bit register per pin, shifted by one place per
     clock from pin.i, read at its last bit; bypassed when input_stages == 0."""
@@ -120,7 +146,8 @@ def run(rep, idx, tier):
     from . import glue as _glue
     # the input synchroniser stages are reset-less on purpose (their value after reset is the pin level within
     # input_stages cycles either way); the output storage register is not
-    _glue.reset_discipline(rep, "C16.6", idx, ["gpio:Peripheral", "gpio:Peripheral.Output._FieldAction"],
+    oa = output_action_class(idx)
+    _glue.reset_discipline(rep, "C16.6", idx, ["gpio:Peripheral", oa if oa is not None else "gpio:Peripheral.Output._FieldAction"],
                            allowed=[("Peripheral", "pin_i_sync_ff")])
     _glue.write_once_handles(rep, "C16.6", idx, "gpio:Peripheral")
     _glue.param_refusals(rep, "C16.5", idx, only=["gpio:Peripheral.__init__"])
@@ -231,7 +258,9 @@ def run(rep, idx, tier):
             continue
         check_dl(rep, "C16.3", c, f"output.{which} == setclr.{which}.w_stb & setclr.{which}.w_data", ds, "0",
                  [(f"SETCLR.f.pin[n].{which}.w_stb & SETCLR.f.pin[n].{which}.w_data", "1")], env)
-    fa = get_ctx(idx, "gpio:Peripheral.Output._FieldAction.elaborate")
+    oa_ = output_action_class(idx)
+    fa = get_ctx(idx, oa_.method("elaborate") if oa_ is not None and oa_.method("elaborate") is not None
+                 else "gpio:Peripheral.Output._FieldAction.elaborate")
     rep.analysed(fa.fi.site)
     if require_supported(rep, "C16.3", fa):
         rd = fa.drivers_of(fa.parse("self.port.r_data"))
@@ -337,7 +366,8 @@ def register_map(rep, idx, ctor, roles):
             rep.check(ok, "C16.5", cls.site, f"{name} fields are {act} of shape {shape}",
                       f"fields: {[ir.show(f) for f in fields]}")
         else:
-            ok = len(fields) == 1 and fields[0][2] and ir.show(fields[0][2][0]).endswith("_FieldAction")
+            oa2 = output_action_class(idx)
+            ok = len(fields) == 1 and fields[0][2] and oa2 is not None and ir.show(fields[0][2][0]).split(".")[-1] == oa2.name
             rep.check(ok, "C16.5", cls.site, "Output fields use the set/clr-aware field action",
                       f"fields: {[ir.show(f) for f in fields]}")
         # one field per pin
